@@ -192,7 +192,7 @@ func main() {
 	seed := flag.Uint64("seed", 1, "")
 	n := flag.Int("n", 100, "")
 	only := flag.Int("only", -1, "")
-	mode := flag.String("mode", "bo", "col|bo|settle")
+	mode := flag.String("mode", "bo", "col|seq|bo|settle")
 	flag.Parse()
 	o := out.New()
 	defer o.Close()
@@ -205,6 +205,8 @@ func main() {
 		switch *mode {
 		case "col":
 			colCase(o, r, i)
+		case "seq":
+			seqCase(o, r, i)
 		case "bo":
 			boCase(o, r, i, false)
 		case "settle":
@@ -270,12 +272,141 @@ func colCase(o *out.W, r *rng.R, i int) {
 	o.Emit(out.Case{I: i, Fam: "col-" + opNames[op], Coq: term, Desc: map[string]interface{}{"op": opNames[op], "rule": rule, "segs": segs, "mergeAt": mergeAt, "go_computed": comp, "go_merged": merged}})
 }
 
+// seqCase: a status column with bundles of coincident segments (runs of 2..5), the real computeSweepFields on it and then
+// the real mergeOverlapping on a SEQUENCE of segments in random order (every bundle member, some twice, some outsiders):
+// the order in which the right endpoints of a bundle are processed is not the stacking order.
+func seqCase(o *out.W, r *rng.R, i int) {
+	op := r.Intn(6)
+	rule := r.Intn(4)
+	clean := r.P(3, 4) // the setting of the theorems: no vertical / open segments, otherSelf = 0
+	var segs []canvas.VerifSweepSeg
+	pos := 0
+	groups := r.Range(1, 5)
+	for g := 0; g < groups; g++ {
+		pos++
+		run := 1
+		if r.P(2, 3) {
+			run = r.Range(2, 5)
+		}
+		vert := !clean && r.P(1, 6)
+		for k := 0; k < run; k++ {
+			clip := r.Bool()
+			if op == 0 {
+				clip = false
+			}
+			sg := canvas.VerifSweepSeg{Clipping: clip, Increasing: r.Bool(), Pos: pos, Vertical: vert}
+			if !clean && !clip && r.P(1, 10) {
+				sg.Open = true
+			}
+			if !clean && r.P(1, 10) {
+				sg.OtherSelf = r.Range(-2, 2)
+			}
+			segs = append(segs, sg)
+		}
+	}
+	n := len(segs)
+	var merges []int
+	for k := 0; k < n; k++ {
+		inBundle := (k > 0 && segs[k-1].Pos == segs[k].Pos) || (k+1 < n && segs[k+1].Pos == segs[k].Pos)
+		if inBundle || r.P(1, 4) {
+			merges = append(merges, k)
+		}
+	}
+	for k := len(merges) - 1; k > 0; k-- { // shuffle
+		j := r.Intn(k + 1)
+		merges[k], merges[j] = merges[j], merges[k]
+	}
+	if len(merges) > 0 && r.P(1, 3) {
+		merges = append(merges, merges[r.Intn(len(merges))]) // a repeated call
+	}
+	if r.P(1, 8) && len(merges) > 1 {
+		merges = merges[:len(merges)-1] // not all members merged: tie only
+	}
+	final, prev := canvas.VerifSweepColumnSeq(segs, op, canvas.FillRule(rule), merges)
+	xs := make([]string, len(final))
+	for k, v := range final {
+		xs[k] = fmt.Sprintf("(%s,%s,%s,%s,%s,%s)", cq.Z(int64(v.W)), cq.Z(int64(v.OW)), cq.Z(int64(v.Self)), cq.Z(int64(v.OSelf)), cq.Z(int64(v.In)), cq.Bool(v.Overlapped))
+	}
+	ss := make([]string, n)
+	for k, sg := range segs {
+		ss[k] = fmt.Sprintf("(mkS %s %s %s %s %s 0 0 %s %s 0 false)", cq.Bool(sg.Clipping), cq.Bool(sg.Open), cq.Bool(sg.Vertical), cq.Bool(sg.Increasing), cq.Z(int64(sg.Pos)), cq.Z(int64(sg.Self)), cq.Z(int64(sg.OtherSelf)))
+	}
+	ms := make([]string, len(merges))
+	for k, m := range merges {
+		ms[k] = cq.Z(int64(m))
+	}
+	ps := make([]string, len(prev))
+	for k, m := range prev {
+		ps[k] = cq.Z(int64(m))
+	}
+	term := fmt.Sprintf("mkSeq %s %s %s %s %s %s", cq.Z(int64(op)), cq.Z(int64(rule)), cq.List(ss), cq.List(ms), cq.List(xs), cq.List(ps))
+	o.Emit(out.Case{I: i, Fam: "seq-" + opNames[op], Coq: term, Desc: map[string]interface{}{"op": opNames[op], "rule": rule, "segs": segs, "merges": merges, "go_final": final, "go_prev": prev}})
+}
+
+// toPaths cuts a path into elements of one to three subpaths each (a slice without spare capacity)
+func toPaths(p *canvas.Path, r *rng.R) canvas.Paths {
+	sub := p.Split()
+	var ps canvas.Paths
+	for k := 0; k < len(sub); {
+		n := r.Range(1, 3)
+		if k+n > len(sub) {
+			n = len(sub) - k
+		}
+		e := &canvas.Path{}
+		for _, sp := range sub[k : k+n] {
+			e = e.Append(sp.Copy())
+		}
+		ps = append(ps, e)
+		k += n
+	}
+	return copyPaths(ps)
+}
+
+func copyPaths(ps canvas.Paths) canvas.Paths {
+	out := make(canvas.Paths, len(ps))
+	for k, e := range ps {
+		out[k] = e.Copy()
+	}
+	return out
+}
+
 func boCase(o *out.W, r *rng.R, i int, settle bool) {
 	ipP := gen.Poly(r)
 	var ipQ gen.IPoly
 	fam := ipP.Family
 	dx, dy := 0, 0
-	switch r.Intn(6) {
+	switch r.Intn(7) {
+	case 6:
+		// chain: contours whose bounding boxes touch each other one after the other, only the last one reaches the other
+		// operand: a hole (listed in random position, often first), its outer square, a tab overlapping the square; the
+		// other operand is a rectangle that touches the tab only
+		w := r.Range(8, 14)
+		hole := gen.Rect(2, 2, w-2, w-2)
+		if r.P(3, 4) {
+			hole = gen.Reverse(hole)
+		}
+		outer := gen.Rect(0, 0, w, w)
+		ty := r.Range(1, w-3)
+		tab := gen.Rect(w-1, ty, w+r.Range(3, 6), ty+2)
+		cs := [][]gen.IPt{hole, outer, tab}
+		if r.P(1, 2) { // random order, else hole first
+			for k := 2; k > 0; k-- {
+				j := r.Intn(k + 1)
+				cs[k], cs[j] = cs[j], cs[k]
+			}
+		}
+		far := gen.Rect(w+2, ty-1, w+9, ty+3)
+		chain := gen.IPoly{Family: "chain", Scale: 1, Contours: cs}
+		other := gen.IPoly{Family: "far-rect", Scale: 1, Contours: [][]gen.IPt{far}}
+		if r.P(1, 4) {
+			other.Contours = append(other.Contours, gen.Rect(w+12, ty-6, w+15, ty+8))
+		}
+		if r.Bool() {
+			ipP, ipQ = chain, other
+		} else {
+			ipP, ipQ = other, chain
+		}
+		fam = ipP.Family + "/" + ipQ.Family
 	case 0:
 		ipQ = ipP // identical operand
 		fam += "/same"
@@ -302,6 +433,13 @@ func boCase(o *out.W, r *rng.R, i int, settle bool) {
 	if !ok1 || !ok2 || len(pc) == 0 {
 		return
 	}
+	// every third case goes through the Paths entry points, the operands cut into elements of one to three subpaths
+	viaPaths := r.P(1, 3)
+	var PP, QQ canvas.Paths
+	if viaPaths {
+		PP, QQ = toPaths(P, r), toPaths(Q, r)
+		fam += "+Paths"
+	}
 	ops := []int{1, 2, 3, 4, 5}
 	rules := []int{0}
 	if settle {
@@ -312,6 +450,23 @@ func boCase(o *out.W, r *rng.R, i int, settle bool) {
 	for _, op := range ops {
 		for _, rule := range rules {
 			res := runOp(func() *canvas.Path {
+				if viaPaths {
+					pp, qq := copyPaths(PP), copyPaths(QQ)
+					switch op {
+					case 0:
+						return pp.Settle(canvas.FillRule(rule))
+					case 1:
+						return pp.And(qq)
+					case 2:
+						return pp.Or(qq)
+					case 3:
+						return pp.Not(qq)
+					case 4:
+						return pp.Xor(qq)
+					default:
+						return pp.DivideBy(qq)
+					}
+				}
 				p, q := P.Copy(), Q.Copy()
 				switch op {
 				case 0:
